@@ -147,8 +147,12 @@ def abstract_group_kernels(rep):
                         detail = f"returned {out.term if isinstance(out, Abs) else raised}, contract {want}"
                     label = "bounded" if cls == "datetime" and not must_raise else "proof"
                     rep.ob(name, "discharged" if ok else "refuted", "abstract-exec", 0, where, "kernel-term", detail)
-                    if not ok:
-                        rep.violation(f"grouped_{kind}:{cls}:{gcls}", f"grouped_{kind} on a {cls} column with {gcls} group ids: {detail}", {"obligation": name, "kind": kind, "cls": cls, "gcls": gcls, "replay": "bounded run B"}, failing_input_found=False)
+                    if not ok and must_raise:
+                        rep.violation(f"grouped_{kind}:{cls}:{gcls}", f"grouped_{kind} on a {cls} column with {gcls} group ids: {detail}", {"obligation": name, "kind": kind, "cls": cls, "gcls": gcls, "replay": "bounded run B"}, failing_input_found=True)
+                    elif not ok:
+                        # the kernel no longer has the contracted form; whether it still computes the aggregate
+                        # is decided by the exhaustive run B of the real kernel on small arrays (see run())
+                        rep.__dict__.setdefault("_pending_terms", []).append((name, f"grouped_{kind}", f"grouped_{kind}:{cls}:{gcls}", f"grouped_{kind} on a {cls} column with {gcls} group ids: {detail}", {"obligation": name, "kind": kind, "cls": cls, "gcls": gcls, "replay": "bounded run B"}))
     finally:
         an.numpy, an.npg = saved
 
@@ -457,6 +461,38 @@ def bounded(rep, tier):
                 n_eval += 1
                 if not numpy.allclose(gotj, expj) and len(bad) < 5:
                     bad.append({"kernel": "join_numpy", "foreign_key": list(ptr), "primary_key": pk.tolist(), "target": tg.tolist(), "got": numpy.asarray(gotj).tolist(), "expected": expj})
+    # isolation ("over exactly the members of the group" / "credited to exactly the person pointed to"): a NaN,
+    # an infinity or a huge value in ONE row never changes the result of rows of other groups / of
+    # persons the row does not point to -- bit for bit
+    base = [1.5, -2.0, 0.25, 3.0]
+    with numpy.errstate(all="ignore"):
+        for n in (3, 4):
+            for gid in itertools.product(gid_dom, repeat=n):
+                g = numpy.array(gid)
+                for kind in ("sum", "mean", "max", "min"):
+                    ref = numpy.asarray(getattr(an, f"grouped_{kind}")(numpy.array(base[:n]), g), dtype=float)
+                    for pos in range(n):
+                        for poison in (float("nan"), float("inf"), 1e300):
+                            c2 = numpy.array(base[:n])
+                            c2[pos] = poison
+                            got = numpy.asarray(getattr(an, f"grouped_{kind}")(c2, g), dtype=float)
+                            n_eval += 1
+                            others = [i for i in range(n) if gid[i] != gid[pos]]
+                            if any(got[i] != ref[i] for i in others) and len(bad) < 5:
+                                bad.append({"kernel": f"grouped_{kind}", "column": [repr(v) for v in c2.tolist()], "group_id": list(gid), "got": [repr(v) for v in got.tolist()], "expected": f"rows of the other groups {others} as without the value: {[repr(v) for v in ref.tolist()]}"})
+            store = numpy.array(ids[:n])
+            for ptr in itertools.product([-1, *ids[:n]], repeat=n):
+                p_ = numpy.array(ptr)
+                ref = an.sum_by_p_id(numpy.array(base[:n]), p_, store)
+                for pos in range(n):
+                    for poison in (float("nan"), float("inf"), 1e300):
+                        c2 = numpy.array(base[:n])
+                        c2[pos] = poison
+                        got = an.sum_by_p_id(c2, p_, store)
+                        n_eval += 1
+                        others = [k for k in range(n) if store[k] != ptr[pos]]
+                        if any(got[k] != ref[k] for k in others) and len(bad) < 5:
+                            bad.append({"kernel": "sum_by_p_id", "column": [repr(v) for v in c2.tolist()], "p_id_to_aggregate_by": list(ptr), "p_id_to_store_by": store.tolist(), "got": [repr(v) for v in got.tolist()], "expected": f"persons {others} (not pointed to by row {pos}) as without the value: {[repr(v) for v in ref.tolist()]}"})
     # join_numpy exceptional post: duplicates in the primary key / dangling non-negative keys
     for fk, pk, should in (([1], [1, 1], True), ([2], [1, 3], True), ([-1], [1, 3], False), ([3, 1], [1, 3], False)):
         try:
@@ -467,7 +503,7 @@ def bounded(rep, tier):
         n_eval += 1
         if raised != should and len(bad) < 5:
             bad.append({"kernel": "join_numpy", "foreign_key": fk, "primary_key": pk, "got": "raised" if raised else "returned", "expected": "ValueError" if should else "a result"})
-    rep.bounded["kernels_vs_definition"] = {"evaluations": n_eval, "distinct_nontrivial": distinct, "rule": f"all group-id vectors over {{0,4,9}} and all columns over 3-value domains for <= {nmax} rows (sparse, unsorted ids) for the seven grouped kernels; datetime max/min on 16 groupings; sum_by_p_id and join_numpy for all pointer vectors over (-1,-5,existing ids) x row orders; distinct = id/pointer vectors", "failures": bad[:5], "exhaustive": True}
+    rep.bounded["kernels_vs_definition"] = {"evaluations": n_eval, "distinct_nontrivial": distinct, "rule": f"all group-id vectors over {{0,4,9}} and all columns over 3-value domains for <= {nmax} rows (sparse, unsorted ids) for the seven grouped kernels; datetime max/min on 16 groupings; sum_by_p_id and join_numpy for all pointer vectors over (-1,-5,existing ids) x row orders; isolation of other groups / persons from a NaN, inf or 1e300 in one row (bit for bit); distinct = id/pointer vectors", "failures": bad[:5], "exhaustive": True}
     rep.functions.add("src/_gettsim/shared.py:272 join_numpy (also bounded exhaustive)")
     for b in bad:
         rep.violation(f"{b['kernel']}:definition-mismatch", f"{b['kernel']} returns {b.get('got')} on {{k: v for k, v in b.items() if k not in ('got', 'expected')}}, definition gives {b.get('expected')}".replace("{k: v for k, v in b.items() if k not in ('got', 'expected')}", str({k: v for k, v in b.items() if k not in ("got", "expected", "kernel")})), b, True)
@@ -782,6 +818,17 @@ def run(tier="quick", seed=0, jobs=16):
             rep.violation(f"sum_by_p_id:{ref[0]}", f"obligation refuted: {ref[0]}", {"obligation": ref[0]}, False)
     if "sum_by_p_id" in failing:
         rep.undecided = [u for u in rep.undecided if "sum_by_p_id" not in u]
+    # a kernel whose abstract execution no longer yields the contracted term: violation if the exhaustive run on
+    # small arrays shows a wrong value, otherwise undecided (another algorithm may compute the same function)
+    for name, kern, key, what, rp in getattr(rep, "_pending_terms", []):
+        if any(k.startswith(kern) for k in failing):
+            rep.violation(key, what, rp, True)
+        else:
+            for o in rep.obligations:
+                if o["name"] == name:
+                    o["status"] = "unknown"
+                    o["detail"] += " | not the contracted form; exhaustive run on small arrays agrees with the definition: undecided"
+            rep.undecided.append(name)
     # a refuted abstract-execution obligation is replayed by the bounded run of the same kernel
     for v in rep.violations:
         if not v["failing_input_found"] and any(v["key"].startswith(k) for k in failing):
